@@ -4,7 +4,7 @@
    PARTIAL: "in a mesh with stable membership on a delivering network no healthy peer is ever timed
    out" combines interval_safe with message delivery; it is decided by the executed correspondence
    on heterogeneous meshes for the grid of timeout/keepalive values (py/props/c15.py). *)
-From VpnModel Require Import Base Interval IntervalProofs NodeInfo Table TableProofs Nonce Replay Core Conn PeerCrypto Node NodeProofs ScheduleProofs.
+From VpnModel Require Import Base Interval IntervalProofs NodeInfo Table TableProofs Nonce Replay Core Conn PeerCrypto Node NodeProofs ScheduleProofs NextHopProofs TickPeersProofs FloodProofs AnnounceProofs.
 
 (* whenever a node schedules its next announcement the delay is at most one second or strictly shorter than every timeout its peers advertised *)
 Theorem C15_interval_safe : forall upd advertised, advertised <> [] ->
@@ -21,6 +21,16 @@ Theorem C15_node_schedule_safe : forall now n3,
   n_next_peers (with_sched m (now + Z.of_N iv)%Z (n_next_own_reset m) (n_reconnect m)) = (now + Z.of_N iv)%Z /\
   (advertised <> [] -> iv <= 1 \/ forall x, In x advertised -> iv < x).
 Proof. exact announcement_schedule_safe. Qed.
+
+(* EVERY REACHABLE STATE ("healthy peers never time out" needs the announcements to go out): whenever an announcement is due, the housekeeping tick emits it to every node that is still a peer after the expiry and crypto phases of that very tick, once each - whether or not a later housekeeping step fails (c_hkfault): the announcement sits before the steps that can fail (hk3 = the node after expiry, table sweep and crypto housekeeping) *)
+Theorem C15_reachable_announcement_reaches_every_peer : forall salts c t0 evs now,
+  let n := nrun salts (node_new c t0) evs in
+  (n_next_peers n <= now)%Z ->
+  let n3 := hk3 salts now n in
+  let ann := snd (broadcast n3 MESSAGE_TYPE_NODE_INFO (ni_encode (create_node_info n3))) in
+  (exists pre post, snd (housekeep salts now n) = pre ++ ann ++ post) /\
+  map dst_of ann = map (fun e => Some (fst e)) (n_peers n3).
+Proof. exact reachable_announcement_reaches_every_peer. Qed.
 
 (* with no peers the own update frequency, capped at 90 s *)
 Theorem C15_interval_no_peers : forall upd, announce_interval upd [] = N.min upd 90.
@@ -74,6 +84,7 @@ Proof. exact backoff_run_ok. Qed.
 
 Print Assumptions C15_interval_safe.
 Print Assumptions C15_node_schedule_safe.
+Print Assumptions C15_reachable_announcement_reaches_every_peer.
 Print Assumptions C15_interval_no_peers.
 Print Assumptions C15_keepalive_default.
 Print Assumptions C15_expired_removed.
